@@ -51,3 +51,45 @@ Proof.
   split; [unfold same_decls; simpl; apply perm_swap|].
   eexists. eexists. repeat split; vm_compute; reflexivity.
 Qed.
+
+(* ---------- histories: type declarations redefined in an interpreter that holds older versions (HistModel.v: model of
+   compileNode's *ast.TypeSpec case, Comp.DeclNamedType, Comp.DeclType) ---------- *)
+From Verif Require Import C16.HistModel C16.HistProof.
+
+(* for EVERY history of earlier evaluations and every run the sorter can emit (each type once, a type follows the types it
+   refers to or their forward declarations, nothing mentions a type after its declaration): a type declared by the run
+   refers, for every name the run declares, to the type bound to that name at the END of the run - never to a version
+   left by an earlier evaluation *)
+Theorem C16_redefined_types_link_to_current_versions : forall (hist : list (list item)) l, wf_run l ->
+  forall n refs r, In (IType n refs) l -> In r refs -> declared l r ->
+  link_current (run_items (fold_left run_items hist empty_state) l) n r = true.
+Proof. exact links_current_history. Qed.
+Print Assumptions C16_redefined_types_link_to_current_versions.
+
+(* the step that makes it true: a forward declaration of a name bound to a COMPLETE type (from an earlier evaluation)
+   creates a new, incomplete named type and rebinds the name *)
+Theorem C16_forward_declaration_rebinds_complete_name : forall s n id,
+  lookup_type s n = Some id -> is_complete s id = true ->
+  lookup_type (step s (IFwd n)) n = Some (t_next s) /\ is_complete (step s (IFwd n)) (t_next s) = false.
+Proof. exact fwd_rebinds_complete. Qed.
+Print Assumptions C16_forward_declaration_rebinds_complete_name.
+
+(* non-vacuity: `type A struct{ b *B }; type B struct{ a *A }` evaluated twice; the sorter emits TypeFwd B, Type A, Type B.
+   After the second evaluation A and B are new types (ids 2 and 3) that refer to each other, not to ids 1 / 0 *)
+Definition runAB := [IFwd nB; IType nA [nB]; IType nB [nA]].
+Example ex_wf_runAB : wf_run runAB.
+Proof.
+  intros pre n refs post E. unfold runAB in E.
+  destruct pre as [|a [|b [|c [|d pre]]]]; simpl in E; inversion E; subst; clear E.
+  - split.
+    + intros r [<-|[]] _ _. exists (IFwd nB). split; [left; reflexivity|reflexivity].
+    + intros [i [[<-|[]] Q]]. discriminate.
+  - split.
+    + intros r [<-|[]] _ _. exists (IType nA [nB]). split; [right; left; reflexivity|reflexivity].
+    + intros [i [[] _]].
+Qed.
+Example ex_history_AB :
+  let s := fold_left run_items [runAB; runAB] empty_state in
+  lookup_type s nA = Some 3 /\ lookup_type s nB = Some 2 /\ link_of s nA nB = Some 2 /\ link_of s nB nA = Some 3 /\
+  link_current s nA nB = true /\ link_current s nB nA = true.
+Proof. vm_compute. repeat split. Qed.
